@@ -60,9 +60,9 @@ CLAIMED = {
  "C12": dict(cat="exploration", technique="TLA+ model checking of the estimator state machine (SluLacon, TLC incl. liveness) + trace validation of the real ?gscon/?lacon/sp_?trsv protocol (--wrap) + SluApi validation of expert-driver records; sandwich via harness oracle",
              text="SluLacon models ?lacon's reverse-communication protocol (termination within 12 calls, kase sequence, no static read before written); every real ?gscon call is recorded (kase in/out of each ?lacon call, triangular solves in between) and must be accepted by the model; expert-driver records must show info = n+1 iff rcond < eps, the rcond sandwich in the right norm for the requested system (after equilibration), and the pivot growth recomputed from the returned factors.",
              note="The sandwich and pivot-growth inequalities are oracle-evaluated (long double) and asserted for cond < 1e8 with 10 % slack.", ref="3.7, 5 C12"),
- "C13": dict(cat="exploration", technique="SluApi trace validation of expert-driver histories; berr/ferr clauses via harness oracle",
-             text="For every refined solve over all trans/storage/equilibration combinations the returned berr must equal the true componentwise backward error of the returned X for the equilibrated system in the requested transpose sense (to 20(n+1)eps), and 20*ferr must dominate the actual relative error; TLC asserts both on the records of TLC-enumerated histories.",
-             note="Only the protocol part is decided by TLC; the two numerical inequalities are oracle-observed (long double).", ref="3.7, 5 C13"),
+ "C13": dict(cat="model_checking", technique="TLA+ model checking of the refinement loop (SluRefine, TLC incl. liveness) + trace validation of every real ?gsrfs call (sp_?gemv / ?gstrs / ?lacon recorded through --wrap) + SluApi validation of expert-driver records; berr/ferr inequalities via harness oracle",
+             text="SluRefine models ?gsrfs as the state machine it is (residual with op(A), at most ITMAX corrections solved with op(A), the estimator's kase=1 product with the transposed operator and kase=2 with op(A), the kase sequence a path of SluLacon, counters restarting per column); TLC checks termination and the bounds on the model, and every ?gsrfs call of the executed histories must be a path of it (corrupted copies of real records are rejected: built-in self-test). For every refined solve over all trans/storage/equilibration combinations the returned berr must equal the true componentwise backward error of the returned X for the equilibrated system in the requested transpose sense (to 20(n+1)eps), and 20*ferr must dominate the actual relative error.",
+             note="The protocol part is decided by TLC; the two numerical inequalities are oracle-observed (long double) and asserted by TLC on the logged ratios.", ref="0.1, 3.7, 5 C13"),
  "C20": dict(cat="exploration", technique="TLA+ specification as oracle (SluFiles!ReaderOK evaluated by TLC) on files rendered from abstract matrices and read by the real readers",
              text="Abstract matrices are rendered as Harwell-Boeing, Rutherford-Boeing and column-list text with varying integer/real edit descriptors (E, D, F), with and without the right-hand-side card, and read by the real ?readhb/?readrb/?readmt in four precisions; TLC checks that the returned column-compressed arrays represent exactly the entries and values of the abstract matrix.",
              note="The file writer is part of the trusted harness; widths <= 80, explicit-width descriptors only; F12 (no symmetric expansion, no triplet reader) is a recorded finding.", ref="3.7, 5 C20"),
